@@ -845,6 +845,24 @@ class FnEffect:
                 return self.apply_summary(tgt, b, e, None)
             return EMPTY  # object.__init__ etc.
 
+        # ---- builtin setattr / getattr: the same as the dunder forms (generated accessors of the receiver's family); on other
+        # objects a plain field store / load
+        if isinstance(f, ast.Name) and f.id in ("setattr", "getattr") and f.id not in self.env and e.args:
+            recv0 = self.ev(e.args[0])
+            rk0 = self.kind(e.args[0])
+            if rk0[0] in ("list", "chart", "stacker", "item"):
+                kind = rk0[0]
+                if f.id == "setattr":
+                    val = self.ev(e.args[2]) if len(e.args) > 2 else EMPTY
+                    self.apply_summary(self.ea.gen_quals[(kind, "setter")], {"self": recv0, "val": val}, e, e.args[0])
+                    return EMPTY
+                return self.apply_summary(self.ea.gen_quals[(kind, "getter")], {"self": recv0}, e, None)
+            if f.id == "setattr":
+                val = self.ev(e.args[2]) if len(e.args) > 2 else EMPTY
+                self.mutate(frozenset(lift(r, "*") for r in recv0.obj), e, "setattr")
+                self.alias(recv0.obj, "*", val)
+                return EMPTY
+            return AV(proj(recv0, "*"))
         # ---- plain builtins
         if isinstance(f, ast.Name) and f.id not in self.env and self.M.resolve(self.fn.mod, f.id) is None \
                 and f.id in PM.BUILTINS and self.ty.env.get(f.id) is None:
